@@ -26,10 +26,21 @@ def lit(kind, v):
     return "static_cast<%s>(%dll)" % (ENT.CTYPE[kind], v)
 
 
-def program(ent, args):
+def program(ent, args, extra_sources=()):
     call = "%s(%s)" % (ent.name, ", ".join(lit(k, a) for k, a in zip(ent.params, args)))
-    return ENT.HEADER + ent.source() + "\n}\n#include <cstdio>\nint main(){ auto r = " + call + \
-        "; std::printf(\"result=%lld / %g\\n\", (long long)r, (double)r); return 0; }\n"
+    body = ent.source() + "\n" + "\n".join(extra_sources)
+    return ENT.HEADER + body + "\n}\n#include <cstdio>\nint main(){ auto r = " + call + \
+        "; std::printf(\"result=%lld / %.17g\\n\", (long long)r, (double)r); return 0; }\n"
+
+
+class SrcEntry:
+    def __init__(self, name, params, src):
+        self.name = name
+        self.params = params
+        self.src = src
+
+    def source(self):
+        return self.src
 
 
 def replay(ent, args, config="K17", repo=None, sanitize=True, opt="-O0"):
@@ -55,8 +66,22 @@ def replay(ent, args, config="K17", repo=None, sanitize=True, opt="-O0"):
 
 def main(path):
     d = json.load(open(path))
+    if "args" not in d:
+        print(json.dumps({"note": "structural violation without a concrete input", "text": d.get("text")}, indent=1))
+        return 0
     ents = {e.name: e for e in ENT.entries()}
-    ent = ents[d["wrapper"]]
-    r = replay(ent, d["args"], d.get("config", "K17"))
-    print(json.dumps(r, indent=1))
+    if d.get("entry_source") and d.get("params") is not None:
+        ent = SrcEntry(d["wrapper"], d["params"], d["entry_source"])
+    else:
+        ent = ents[d["wrapper"]]
+    for san in (True, False):
+        r = replay(ent, d["args"], d.get("config", "K17"), sanitize=san)
+        print("== %s build: %s(%s) [%s]" % ("UBSan+ASan" if san else "plain -O0", d["wrapper"], ", ".join(map(str, d["args"])), d.get("config", "K17")))
+        print(json.dumps(r, indent=1))
+    if d.get("other_source"):
+        ent2 = SrcEntry(d["other"], d["params"], d["other_source"])
+        r = replay(ent2, d["args"], d.get("config", "K17"), sanitize=False)
+        print("== compared program %s:" % d["other"])
+        print(json.dumps(r, indent=1))
+    print("expected: %s" % d.get("expected"))
     return 0
